@@ -48,6 +48,7 @@ type c02Case struct {
 	Ed25519CA  bool     `json:"ed25519_ca"`
 	Signer     string   `json:"signer"`
 	NoNormal   bool     `json:"no_normalisation"`
+	Preload    string   `json:"preload,omitempty"` // own CA keys already listed in the operator's public key file: "", main, ed, both
 	Extensions []c02Ext `json:"extensions"`
 	// a request served just before, for another user with other templates:
 	// state leaking between requests shows up inside one case (and its replay)
@@ -158,6 +159,7 @@ func c02Gen(t *rapid.T) c02Case {
 	c.AddGroups = rapid.Bool().Draw(t, "groups")
 	c.Realm = rapid.Bool().Draw(t, "realm")
 	c.Ed25519CA = rapid.IntRange(0, 2).Draw(t, "edca") > 0
+	c.Preload = rapid.SampledFrom([]string{"", "", "main", "ed", "both"}).Draw(t, "preload")
 	c.Signer = rapid.SampledFrom([]string{"rsa2048", "rsa2048", "p256"}).Draw(t, "signer")
 	nExt := rapid.IntRange(0, 3).Draw(t, "nExt")
 	for i := 0; i < nExt; i++ {
@@ -175,7 +177,7 @@ func c02Gen(t *rapid.T) c02Case {
 var c02Worlds = map[string]*vWorld{}
 
 func c02World(c c02Case) *vWorld {
-	key := fmt.Sprint(c.Signer, c.Ed25519CA, c.Realm, c.NoNormal)
+	key := fmt.Sprint(c.Signer, c.Ed25519CA, c.Realm, c.NoNormal, c.Preload)
 	if w, ok := c02Worlds[key]; ok {
 		return w
 	}
@@ -185,6 +187,7 @@ func c02World(c c02Case) *vWorld {
 		CertBackends:         []string{"password"},
 		WebUIBackends:        []string{"password"},
 		DisableNormalization: c.NoNormal,
+		PreloadOwnKeys:       c.Preload,
 		Users:                map[string]string{"otheruser": "other-pw"},
 	}
 	if c.Realm {
